@@ -76,6 +76,25 @@ Theorem C29_iwp_cov_propagation :
     colsum (cols_step (iwp_drift dt) G cols) = iwp_propagate dt (colsum cols) (ggt G).
 Proof. exact iwp_cov_propagation. Qed.
 
+(* ---- the 2-D state is linear in the excitations: after every step the state of the recursion
+   x_{k+1} = F_k x_k + G_k xi_k (any matrices) is the response columns applied to
+   (x0_0, x0_1, xi_00, xi_01, xi_10, ...); for the integrated Wiener process as coded this ties the
+   numeric run to the columns whose covariance C29_iwp_cov_propagation / C29_iwp_marginal_covariance describe *)
+Theorem C29_state_linear :
+  forall Fs cols pre Gs xis,
+    length cols = length pre -> length Gs = length Fs -> length xis = length Fs ->
+    lrec vadd2 mv (apply_cols cols pre) Fs (map2 mv Gs xis) =
+    map (fun c => apply_cols c (pre ++ flat_xi xis)) (iwp_cols cols Fs Gs).
+Proof. exact state_linear. Qed.
+
+Theorem C29_iwp_linear :
+  forall xi x0 sigma s dt r,
+    length sigma = length xi -> length s = length xi -> length dt = length xi -> length r = length xi ->
+    iwp xi x0 sigma s dt r =
+    map (fun c => apply_cols c ([fst x0; snd x0] ++ flat_xi xi))
+        (iwp_cols [(1, 0); (0, 1)] (map iwp_drift dt) (iwp_amps sigma s dt r)).
+Proof. exact iwp_linear. Qed.
+
 (* ---- scalar processes are linear in the excitations: x_k = <row_k, excitations>, where one step
    scales the coefficient row by the drift and appends the amplitude *)
 Theorem C29_scalar_linear :
